@@ -269,20 +269,18 @@ def report(ctx, mismatches):
         return
     ctx.log("%d case(s) where the real code departs from every prediction of the model" % len(mismatches))
     known = [d for d in DEVIATIONS if d in ctx.known]
-    by_dev = {}
-    sub = mismatches[:60000]
+    keyed = {}                                  # index of mismatch -> name of the known deviation explaining it
     for d in known:
-        by_dev[d] = predict_file(ctx, [m[0] for m in sub], [d], "classify-" + d)
+        todo = [i for i in range(min(len(mismatches), 60000)) if i not in keyed]
+        if not todo:
+            break
+        preds_d = predict_file(ctx, [mismatches[i][0] for i in todo], [d], "classify-" + d)
+        for j, i in enumerate(todo):
+            if matches(preds_d.get(j, []), mismatches[i][2]):
+                keyed[i] = d
     for i, (case, preds, obs) in enumerate(mismatches):
-        key = None
-        if i < len(sub):
-            for d in known:
-                if matches(by_dev[d].get(i, []), obs):
-                    key = d
-                    break
         ckey, detail = classify(case, closest(preds, obs), obs)
-        if key is None:
-            key = ckey
+        key = keyed.get(i, ckey)
         tgt = target_text(case["req"]["wire"])
         pats = [o["pattern"] for o in case["plan"] if o["op"] == "handle"]
         ctx.violation(key, "%s %s on patterns %s: %s" % (case["req"]["method"], tgt, pats[:3], detail),
